@@ -213,12 +213,31 @@ func Run(ctx *core.Ctx) {
 	maybeChild(ctx)
 	ctx.SetRule("one fault per exchange, injected by scripted origins / upstream proxies / TLS endpoints: the reply cut at every byte offset of head and body " +
 		"(small replies, FIN and RST: exhaustive; large replies: sampled) under Content-Length / chunked / close-delimited framing, through a plain proxy, " +
-		"GET https://, an intercepted tunnel and an upstream proxy; refused and timed-out dials; ten TLS failure shapes; CONNECT replies rejected, torn and " +
+		"GET https://, an intercepted tunnel and an upstream proxy; the dial matrix refused / timed out / reset x origin / http upstream proxy / https upstream " +
+		"proxy x plain / https / intercepted / client CONNECT; ten TLS failure shapes; CONNECT replies rejected, torn and " +
 		"garbled; malformed and oversized heads; hostile client bytes on plain, TLS and intercepting listeners (mutated requests, binary, partial TLS records, " +
-		"heads over 1 MiB, pipelined garbage, bad chunk sizes); consecutive failures on one connection and the consecutive-error counter. Every case with a " +
-		"fault or hostile input is non-trivial; distinct = distinct (kind, path, framing, fault point, FIN/RST, input)")
+		"heads over 1 MiB, pipelined garbage, bad chunk sizes); upstream replies as a product space: status (1xx, 101, 2xx, 204, 205, 206, 304, 4xx, 5xx, 600+, 000) x " +
+		"upgrade fields x Content-Type (text/event-stream variants and others) x Content-Length / Transfer-Encoding shapes x body x request kind (GET, HEAD, " +
+		"POST, upgrade request, CONNECT through an upstream proxy, intercepted) with the core status x upgrade class x content-type class x request kind " +
+		"enumerated every run; consecutive failures on one connection and the consecutive-error counter. Every case with a " +
+		"fault, hostile input or scripted reply is non-trivial; distinct = distinct (kind, path, framing, fault point, FIN/RST, input / reply bytes)")
+	// the corpus: single cases as one batch (ids made distinct), recorded batches as they are
+	var corpus []*Case
+	seenID := map[string]bool{}
 	for _, raw := range core.LoadCorpus(ctx.Root, "C12") {
+		var c Case
+		if json.Unmarshal(raw, &c) == nil && c.Kind != "" && c.Kind != "batch" {
+			if c.ID == "" || seenID[c.ID] {
+				c.ID = fmt.Sprintf("W%d", 9000+len(corpus))
+			}
+			seenID[c.ID] = true
+			corpus = append(corpus, &c)
+			continue
+		}
 		Replay(ctx, raw)
+	}
+	if len(corpus) > 0 {
+		execute(ctx, corpus, 10, 0)
 	}
 	cases := generate(ctx.Rng.Sub(), ctx.Quick())
 	for i, c := range cases {
